@@ -63,15 +63,20 @@ Theorem C15_sticky : forall fps cs c d tape,
 Proof. exact sticky_clause. Qed.
 Print Assumptions C15_sticky.
 
-(* Clause 4: the reported offset is the fault-tolerant midpoint over one value per participating client
-   (its measured offset, 0 if all its exchanges failed), for every completion order of the measurements. *)
-Theorem C15_ftm_over_participants : forall arrived, round_offset arrived = ftm (map value_of arrived).
+(* Clause 4: the reported offset is the fault-tolerant midpoint over one value per participating client that
+   produced a measurement (`measured` drops the failed ones), for every completion order of the measurements;
+   the round reports errNoMeasurement exactly when no participant produced one. *)
+Theorem C15_ftm_over_participants : forall arrived, round_offset arrived = ftm (measured arrived).
 Proof. exact round_offset_values. Qed.
 Print Assumptions C15_ftm_over_participants.
 
 Theorem C15_ftm_order_free : forall a a', Permutation a a' -> round_offset a = round_offset a'.
 Proof. exact round_offset_order_free. Qed.
 Print Assumptions C15_ftm_order_free.
+
+Theorem C15_no_measurement_error : forall arrived, round_offset arrived = None <-> measured arrived = [].
+Proof. exact round_offset_none. Qed.
+Print Assumptions C15_no_measurement_error.
 
 (* The property oracle holds for the model on ALL inputs: every round the model can produce, for all client
    states, offered paths, tapes, peer behaviours and filter values, is accepted by C15_round_ok. *)
@@ -81,6 +86,14 @@ Theorem C15_oracle_holds_for_model : forall fps cs hasfs d tape mss vss obs off 
   C15_round_ok fps (to_cobs_list hasfs cs obs) 0 off = true.
 Proof. exact model_round_ok. Qed.
 Print Assumptions C15_oracle_holds_for_model.
+
+Theorem C15_oracle_holds_for_model_nomeas : forall fps cs hasfs d tape mss vss obs rest,
+  length hasfs = length cs -> Z.of_nat (length fps) <= max_i64 -> words tape -> word d ->
+  run_round fps cs d tape mss vss = RNoMeas obs rest ->
+  C15_round_ok fps (to_cobs_list hasfs cs obs) 4 0 = true
+  /\ Forall (fun o => co_vals o = []) (participants obs).
+Proof. exact model_nomeas_ok. Qed.
+Print Assumptions C15_oracle_holds_for_model_nomeas.
 
 Theorem C15_oracle_holds_for_model_nopath : forall fps cs hasfs d tape mss vss post resets rest,
   length hasfs = length cs ->
@@ -197,8 +210,8 @@ Example C15_example_withdrawn :
   = AOk [None; Some 0%nat] [true; false] [].
 Proof. vm_compute. reflexivity. Qed.
 
-Example C15_example_offset : round_offset [Some 30; None; Some (-5); Some 12] = Some 6.
-Proof. vm_compute. reflexivity. Qed.
+Example C15_example_offset : round_offset [Some 30; None; Some (-5); Some 12] = Some 12 /\ round_offset [None; None] = None.
+Proof. vm_compute. split; reflexivity. Qed.
 
 Example C15_example_threshold : (* 2^32 mod 6 = 4: the word 4 is rejected, 5 accepted *)
   rand_intn 6 false 4294967295 [4; 5] = Ok (5, []) /\ rand_intn 6 true 4294967295 [4; 5] = Err
